@@ -471,6 +471,7 @@ where
 {
     let chan_a = &mut pp.chan_a;
     let buf_b = &mut pp.buf_b;
+    let lag = segments.len() > 110 && segments.len() % 3 == 0;
     let send = async {
         for s in segments {
             if let Err(e) = chan_a.enqueue_chunk(s).await {
@@ -479,8 +480,13 @@ where
         }
         None
     };
+    // a reader that lags behind: with more segments than the agent's ingress queue holds (100), a third of
+    // the cases start reading only after the sender had time to fill every queue on the way
     let recv = async {
         let mut out = vec![];
+        if lag {
+            tokio::time::sleep(Duration::from_millis(400)).await;
+        }
         for _ in 0..expect {
             match tokio::time::timeout(Duration::from_secs(stall_s), buf_b.recv_full_msg::<M>()).await {
                 Err(_) => {
